@@ -455,7 +455,7 @@ GOut(kind, gram, vals, c) ==
   LET g == gram[c.name]
       e == EncG(g, vals[c.name][c.i])
       D(b) == DecG(g, b)
-  IN [k |-> kind, msg |-> c.name, i |-> c.i, enc |-> e, variants |-> WithDec(Variants(e, IF Big THEN 400 ELSE 64), D)]
+  IN [k |-> kind, msg |-> c.name, i |-> c.i, enc |-> e, variants |-> WithDec(Variants(e, IF Big THEN 128 ELSE 64), D)]
 MsgOut(c) == GOut("msg", MsgGrammar, MsgVals, c)
 ExtOut(c) == GOut("ext", ExtGrammar, ExtVals, c)
 MsgOK(c) == RoundTripG(MsgGrammar[c.name], MsgVals[c.name][c.i])
